@@ -52,6 +52,10 @@ ATOMS = {
     "b=u": [A("<p>b", "u")],
     "u=3": [A("u", "3")],
     "a=ifexp": [A("<p>a", "(<p>b if <p>a > 1 else -<p>b - 1)")],
+    # conditional expressions nested in the then / else / condition position of another
+    "a=ifexp-in-then": [A("<p>a", "((1 if <p>b > 0 else 2) if <p>a > 1 else 3)")],
+    "a=ifexp-in-else": [A("<p>a", "(3 if <p>a > 1 else (1 if <p>b > 1 else 2))")],
+    "a=ifexp-in-cond": [A("<p>a", "(5 if (<p>b if <p>a > 1 else -1) > 0 else 6)")],
     "a=(a**2)**3": [A("<p>a", "(<p>a**2)**3")],
     "b=(-1)**a": [A("<p>b", "(-1)**<p>a")],
     "b=a-(b-1)": [A("<p>b", "<p>a - (<p>b - 1)")],
